@@ -761,7 +761,9 @@ main(int argc, char **argv)
 		// respondents, three bus nodes), cooked and raw push
 		if (sc->peer2 && strcmp(V[i].scen, "push-pull") && strcmp(V[i].scen, "pub-sub") &&
 		    strcmp(V[i].scen, "surveyor-respondent") && strcmp(V[i].scen, "bus") &&
-		    strcmp(V[i].scen, "xpush-xpull"))
+		    strcmp(V[i].scen, "xpush-xpull") && strcmp(V[i].scen, "req-rep") &&
+		    strcmp(V[i].scen, "xreq-xrep") && strcmp(V[i].scen, "xsurveyor-xrespondent") &&
+		    strcmp(V[i].scen, "xbus") && strcmp(V[i].scen, "xpub-xsub"))
 			continue;
 		mk_alphabet(sc, &V[i]);
 		// seed 0: the initial (connected, empty) state
